@@ -30,7 +30,9 @@ TECHNIQUE = ('symx as case-splitter over the path grammar x entry points on Fake
 EXPLANATION = (
     "symx/z3 exploration of the whole path grammar (<= 4 components incl. '..', '.', empty, absolute, doubled slashes, "
     "sibling-prefix names, symlinks pointing inside/outside) for every storage and read entry point, root reached "
-    "directly or via a symlink; access log + sentinel fingerprint oracle; exhaustive within the grammar bound.")
+    "directly or via a symlink; also with the path's components re-pointed to outside symlinks between two uses by one handle, "
+    "and with the table's own lock file / directory planted as a dangling outside symlink; access log + sentinel fingerprint "
+    "oracle; exhaustive within the grammar bound.")
 RULE = "one case = one (path, entry point, root spelling) combination explored; non-trivial = the solver chose the path components"
 ASSUMPTIONS = [
     "path depth <= 4 components from the listed alphabet; TOCTOU symlink swaps between check and use and Windows paths are outside the claim",
